@@ -167,6 +167,37 @@ fn fnv(s: &[u8]) -> u64 {
     h.finish()
 }
 
+/// A non-streaming hasher (like FxHasher): every `write` call is folded in whole words and mixed with its own
+/// length, so the result depends on how the text is split across calls. `Borrow<str>` lookups must work with
+/// any `Hasher`, so a LeanString has to feed it exactly like the same str does.
+fn word_hash<T: Hash + ?Sized>(t: &T) -> u64 {
+    struct Word(u64);
+    impl Word {
+        fn add(&mut self, w: u64) {
+            self.0 = (self.0.rotate_left(5) ^ w).wrapping_mul(0x517cc1b727220a95);
+        }
+    }
+    impl Hasher for Word {
+        fn finish(&self) -> u64 {
+            self.0
+        }
+        fn write(&mut self, bytes: &[u8]) {
+            for c in bytes.chunks(8) {
+                let mut w = [0u8; 8];
+                w[..c.len()].copy_from_slice(c);
+                self.add(u64::from_le_bytes(w));
+            }
+            self.add(bytes.len() as u64 ^ 0xa5a5);
+        }
+        fn write_u8(&mut self, i: u8) {
+            self.add(i as u64 | 0x100);
+        }
+    }
+    let mut h = Word(0);
+    t.hash(&mut h);
+    h.finish()
+}
+
 fn fnv_hash<T: Hash + ?Sized>(t: &T) -> u64 {
     struct Fnv(u64);
     impl Hasher for Fnv {
@@ -1176,8 +1207,8 @@ impl World {
         if x.cmp(y) != mx.as_str().cmp(my.as_str()) || x.partial_cmp(y) != mx.as_str().partial_cmp(my.as_str()) {
             bad("C17.ord", format!("cmp({mx:?}, {my:?}): LeanString {:?}, str {:?}", x.cmp(y), mx.cmp(my)));
         }
-        if hash_str_of(x) != hash_str(mx) || fnv_hash(x) != fnv_hash(mx.as_str()) {
-            bad("C17.hash", format!("hash of {mx:?} differs from the hash of the same str"));
+        if hash_str_of(x) != hash_str(mx) || fnv_hash(x) != fnv_hash(mx.as_str()) || word_hash(x) != word_hash(mx.as_str()) {
+            bad("C17.hash", format!("hash of {mx:?} differs from the hash of the same str (SipHash, FNV, or a word-at-a-time hasher)"));
         }
         if format!("{x}") != format!("{mx}") || format!("{x:?}") != format!("{mx:?}") || format!("{x:>20}") != format!("{mx:>20}") {
             bad("C17.fmt", format!("Display/Debug of {mx:?} differ from str's"));
